@@ -282,6 +282,21 @@ def rule_D1(ctx):
             continue
         e = x.exc.func if isinstance(x.exc, ast.Call) else x.exc
         name = e.attr if isinstance(e, ast.Attribute) else (e.id if isinstance(e, ast.Name) else ast.unparse(e))
+        if isinstance(x.exc, ast.Name) and name not in DOCUMENTED and not name[0].isupper() and f is not None:
+            # `error = CreationError(...)` ... `raise error`: the classes the name was built from (None assignments aside)
+            defs = [y.value for y in own_walk(f.node) if isinstance(y, ast.Assign) and any(isinstance(t, ast.Name) and t.id == name for t in y.targets)]
+            handler_bound = any(isinstance(y, ast.ExceptHandler) and y.name == name for y in own_walk(f.node))
+            built = []
+            for v in defs:
+                for w in ([v.body, v.orelse] if isinstance(v, ast.IfExp) else [v]):
+                    if isinstance(w, ast.Constant) and w.value is None:
+                        continue
+                    c = w.func if isinstance(w, ast.Call) else None
+                    cn = c.attr if isinstance(c, ast.Attribute) else (c.id if isinstance(c, ast.Name) else None)
+                    built.append(cn)
+            if defs and not handler_bound and built and all(cn in DOCUMENTED for cn in built):
+                r.ok(f'{key}:{name}', {'instance': key, 'raises': f'{name} = ' + ' | '.join(sorted(set(built)))})
+                continue
         if isinstance(x.exc, ast.Name) and name not in DOCUMENTED and not name[0].isupper():
             name = 're-raise ' + name
         if name in DOCUMENTED:
